@@ -869,24 +869,45 @@ func reuseResend(r *rand.Rand, o *hout.Out, fresh bool) {
 			first[f["34"]] = w
 		}
 	}
-	from := 2 + r.Intn(k)
-	to := from + r.Intn(k+2-from)
-	feed(frame(body([]fld{{"35", "2"}, {"49", "PEER"}, {"56", "ME"}, {"34", "2"}, {"52", "20240101-00:00:00.000"}, {"7", strconv.Itoa(from)}, {"16", strconv.Itoa(to)}})))
-	resent := drain()
 	kind := "reused-object"
 	if fresh {
 		kind = "fresh-objects"
 	}
-	desc := fmt.Sprintf("%s: %d application sends, ResendRequest %d..%d", kind, k, from, to)
-	if len(resent) != to-from+1 {
-		o.Fail("C10", "resent-count", fmt.Sprintf("%s: %d messages retransmitted", desc, len(resent)))
-	}
-	for i, w := range resent {
-		want := first[strconv.Itoa(from+i)]
-		if !bytes.Equal(w, want) {
-			o.Fail("C10", "resent-differs-from-first-transmission", fmt.Sprintf("%s: retransmission %d is %q, first transmission under %d was %q", desc, i, w, from+i, want))
+	last := k + 1 // the Logon answer is 1, the application messages 2..k+1
+	desc := ""
+	// several requests in a row, bounded and open-ended (16=0) in any order, nothing sent in between
+	for rq := 0; rq < 3; rq++ {
+		from := 2 + r.Intn(k)
+		to := from + r.Intn(last+1-from)
+		want := to
+		if r.Intn(2) == 0 || (rq == 1 && to < last) {
+			to, want = 0, last
+		}
+		feed(frame(body([]fld{{"35", "2"}, {"49", "PEER"}, {"56", "ME"}, {"34", strconv.Itoa(2 + rq)}, {"52", "20240101-00:00:00.000"}, {"7", strconv.Itoa(from)}, {"16", strconv.Itoa(to)}})))
+		resent := drain()
+		desc = fmt.Sprintf("%s: %d application sends, request %d of 3: ResendRequest %d..%d", kind, k, rq+1, from, to)
+		if len(resent) != want-from+1 {
+			var got []string
+			for _, w := range resent {
+				_, f := render(w)
+				got = append(got, f["34"])
+			}
+			o.Fail("C10", "resent-count", fmt.Sprintf("%s: retransmitted %v, want %d..%d", desc, got, from, want))
 			break
 		}
+		bad := false
+		for i, w := range resent {
+			wantB := first[strconv.Itoa(from+i)]
+			if !bytes.Equal(w, wantB) {
+				o.Fail("C10", "resent-differs-from-first-transmission", fmt.Sprintf("%s: retransmission %d is %q, first transmission under %d was %q", desc, i, w, from+i, wantB))
+				bad = true
+				break
+			}
+		}
+		if bad {
+			break
+		}
+		o.Nontrivial("C10", desc)
 	}
 	o.Nontrivial("C10", desc)
 	o.Count("ev.reuse-resend." + kind)
